@@ -16,6 +16,15 @@ def run(ctx, replay):
     # M: rollup of a compacted source = rollup of the original files; grouping-insensitive reference
     ctx.model_check("MCMetricData", "MCMetricData.cfg", timeout=900)
     ctx.model_check("MCMetricData", "MCMetricData_b.cfg", timeout=900)
+    # several source families (days, hours) into ONE target family: the rollup outputs the target accumulates job by job
+    # read as the reference rollup of all source files; the target's bookkeeping of what it already holds (reference =
+    # source store / family id / file number) lets every offered file in exactly once -- a reference without the source
+    # store, or no reference at all, must violate
+    ctx.model_check("MCMetricData", "MCMetricData_ms.cfg", timeout=900)
+    if thorough:
+        ctx.model_check("MCMetricData", "MCMetricData_msb.cfg", timeout=900)
+    ctx.model_check("MCMetricData", "MCMetricData_ms_dev_shortkey.cfg", expect="violation", timeout=900)
+    ctx.model_check("MCMetricData", "MCMetricData_ms_dev_nokey.cfg", expect="violation", timeout=900)
     # T: real engine, 10s -> 5min (day -> month) and -> 1h (day -> year); rollup, again, after restart, and
     # restarted from the directory image after every manifest commit of the rollup job
     nr, ni = (300, 80) if thorough else (40, 10)
@@ -50,10 +59,57 @@ def run(ctx, replay):
                             out[i] = json.dumps(d, separators=(",", ":")) + "\n"
                             return out
         return None
+    # T: 2-3 source days of one month (each day its own source store, so source family ids and file numbers repeat from
+    # day to day), same / different hours: all of them roll up into ONE family of the 1h target (and into one family per
+    # day of the 5min target); day by day, all pending in one pass, file by file, seeded orders; again; after a restart;
+    # restarted from the image after every manifest commit of the last day's rollup
+    nm, nmi = (160, 40) if thorough else (24, 4)
+    trm = c03.run_mdata(ctx, ["--compact", 0, "--rollup", 0, "--multiday", nm, "--multiday-images", nmi], "rollup-multiday")
+    if trm is None:
+        return
+    ctx.extra["multiday_rollup_checks"] = sum(1 for ln in vcore.read_lines(trm) if '"ev":"RollupM"' in ln)
+    ctx.extra["multiday_rollup_checks_from_crash_images"] = sum(1 for ln in vcore.read_lines(trm) if '"ev":"RollupM"' in ln and "image-after-commit" in ln)
+
+    def day_missing(lines):
+        # the last block of a 1h target family that has sources of several days disappears (and its place with it)
+        for i, ln in enumerate(lines):
+            if '"ev":"RollupM"' in ln and '"target":"1h"' in ln:
+                d = json.loads(ln)
+                for fam in d["families"]:
+                    if len(set(s["day"] for s in fam["sources"])) < 2:
+                        continue
+                    idx = [k for k, w in enumerate(d["where"]) if w == fam["want"] and d["targetblocks"][k]]
+                    if len(idx) < 2:
+                        continue
+                    del d["targetblocks"][idx[-1]]
+                    del d["where"][idx[-1]]
+                    out = list(lines)
+                    out[i] = json.dumps(d, separators=(",", ":")) + "\n"
+                    return out
+        return None
+
+    def other_family(lines):
+        # a block of the 5min target is found in the family of another day
+        for i, ln in enumerate(lines):
+            if '"ev":"RollupM"' in ln and '"target":"5m"' in ln:
+                d = json.loads(ln)
+                wants = sorted(set(d["where"]))
+                if len(wants) < 2:
+                    continue
+                for k, w in enumerate(d["where"]):
+                    if d["targetblocks"][k]:
+                        d["where"][k] = [x for x in wants if x != w][0]
+                        out = list(lines)
+                        out[i] = json.dumps(d, separators=(",", ":")) + "\n"
+                        return out
+        return None
+    vcore.corrupt_selftest(ctx, "MetricDataTrace", "MetricDataTrace.cfg", trm, day_missing, "one rollup output of a month family fed by several days is missing")
+    vcore.corrupt_selftest(ctx, "MetricDataTrace", "MetricDataTrace.cfg", trm, other_family, "a 5min block sits in another day's family")
     vcore.corrupt_selftest(ctx, "MetricDataTrace", "MetricDataTrace.cfg", tr, wrong_slot, "a target cell sits in the neighbouring coarse slot")
     vcore.corrupt_selftest(ctx, "MetricDataTrace", "MetricDataTrace.cfg", tr, doubled, "a sum cell counted twice after the rollup was triggered again")
     ctx.assumptions += [
         "source interval 10s (one family per hour), targets 5min (month calculator: family = day) and 1h (year calculator: family = month); the expected base slot (hour*12, (day-1)*24+hour) and the expected target segment/family are computed by the harness from the civil date, independent of lindb's calculators; TZ=UTC",
         "one source family per history (any hour of five dates incl. a leap day and month/year ends); values integral",
+        "multi-day histories: 2-3 days of one of four months (leap February, December incl. the step into the next year), 1-2 hours per day, 1-2 files per source family; the expected target family and base slot of every source family come from the civil date; rollup passes are triggered with ForceRollup on every source store and awaited (no source store is closed while its job may run)",
         "kill = directory copied after each manifest append of the rollup job, reopened by a new engine",
     ]
